@@ -46,6 +46,33 @@ func runC17(c *mon.Ctx) {
 		c17List(c, id, files, theme, perms)
 	}
 
+	// Part A': a root go.mod whose real content is exactly at (and one byte below) the documented size limit,
+	// declares go 1.24 behind megabytes of comment, and comes with the files the two vendoring variants treat
+	// differently: at the limit the file is still valid and its go version still counts.
+	for k, sz := range []int{refzip.MaxGoMod - 1, refzip.MaxGoMod} {
+		id := fmt.Sprintf("gomod-at-limit%d", k)
+		if !c.Mine(k) || !c.Want(id) {
+			continue
+		}
+		head := "module example.com/m\n\n// padding follows\n"
+		tail := "\ngo 1.24\n"
+		pad := bytes.Repeat([]byte("// 0123456789 abcdefghijklmnopqrstuvwxyz ABCDEFGHIJKLMNOPQRSTUVWXYZ padding\n"), sz/70+1)
+		data := append([]byte(head), pad[:sz-len(head)-len(tail)-1]...)
+		data = append(append(data, '\n'), tail...)
+		files := []*gen.ZFile{
+			{P: "go.mod", M: 0o644, Sz: int64(len(data)), Data: data, GoVersion: "1.24", GoModKind: "at-size-limit", Tag: "root-go.mod"},
+			{P: "a.go", M: 0o644, Sz: 3, Data: []byte("abc")},
+			{P: "vendor/modules.txt", M: 0o644, Sz: 1, Data: []byte("x")},
+			{P: "pkg/vendor/vendor.go", M: 0o644, Sz: 1, Data: []byte("y")},
+			{P: "vendor/x/y.go", M: 0o644, Sz: 1, Data: []byte("z")},
+		}
+		if len(data) != sz {
+			c.Inconclusive(fmt.Sprintf("harness: go.mod padding gives %d bytes, wanted %d", len(data), sz))
+			continue
+		}
+		c17List(c, id, files, "gomod-at-size-limit", [][]int{{0, 1, 2, 3, 4}, {4, 3, 2, 1, 0}})
+	}
+
 	// Part B: trees.
 	base, err := fsbox.Base(fmt.Sprintf("c17-b%d-", c.Batch))
 	if err != nil {
